@@ -142,11 +142,104 @@ func (P *Prog) buildQuery(o *Obligation) (asserts []*Term, stats string) {
 			asserts = append(asserts, added...)
 		}
 	}
+	ocDone := map[string]bool{}
+	for round := 0; round < 3; round++ {
+		added := oc16Congruence(asserts, ocDone)
+		if len(added) == 0 {
+			break
+		}
+		asserts = append(asserts, added...)
+		// A1/A3 for the new applications
+		for _, t := range collect(added) {
+			if t.Op == "app" && t.Name == "spec|oc16" {
+				asserts = append(asserts, specAxioms["spec|oc16"](t)...)
+			}
+		}
+	}
 	order := collect(asserts)
 	asserts = append(asserts, P.strFacts(order)...)
 	// reserved references for immutable global objects
 	asserts = append(asserts, ULt(BVi(1024, 32), Var("alloc@0", RefSort)))
 	return asserts, stats
+}
+
+// oc16Congruence instantiates compatibility of oc16 (x mod 65535) with addition:
+// oc16(X) = oc16(Y) ⇒ oc16(X + R) = oc16(Y + R), for every equation between oc16 terms in
+// the query and every oc16 application whose argument is a sum containing X's summands.
+// Each instance carries the equation and the no-overflow bounds as hypotheses, so it is valid
+// wherever the equation occurs (also under guards).
+
+func sumOperands(t *Term, out *[]*Term) {
+	if t.Op == "bvadd" {
+		sumOperands(t.Args[0], out)
+		sumOperands(t.Args[1], out)
+		return
+	}
+	*out = append(*out, t)
+}
+
+func oc16Congruence(asserts []*Term, oc16Done map[string]bool) []*Term {
+	order := collect(asserts)
+	type eqn struct{ x, y, eq *Term }
+	var eqs []eqn
+	var apps []*Term
+	isOc := func(t *Term) bool { return t.Op == "app" && t.Name == "spec|oc16" }
+	for _, t := range order {
+		if isOc(t) {
+			apps = append(apps, t)
+		}
+		if t.Op == "=" && isOc(t.Args[0]) && isOc(t.Args[1]) {
+			eqs = append(eqs, eqn{t.Args[0].Args[0], t.Args[1].Args[0], t}, eqn{t.Args[1].Args[0], t.Args[0].Args[0], t})
+		}
+	}
+	if len(eqs) == 0 {
+		return nil
+	}
+	bound := BVi(1<<48, 64)
+	var out []*Term
+	for _, a := range apps {
+		var ops []*Term
+		sumOperands(a.Args[0], &ops)
+		for _, e := range eqs {
+			var xs []*Term
+			sumOperands(e.x, &xs)
+			if len(xs) >= len(ops) {
+				continue
+			}
+			// multiset difference ops - xs
+			rest := append([]*Term{}, ops...)
+			ok := true
+			for _, x := range xs {
+				found := false
+				for i, r := range rest {
+					if r == x {
+						rest = append(rest[:i], rest[i+1:]...)
+						found = true
+						break
+					}
+				}
+				if !found {
+					ok = false
+					break
+				}
+			}
+			if !ok || len(rest) == 0 {
+				continue
+			}
+			key := fmt.Sprintf("%d/%d", a.id, e.eq.id) + "/" + fmt.Sprint(e.x.id)
+			if oc16Done[key] {
+				continue
+			}
+			oc16Done[key] = true
+			r := rest[0]
+			for _, x := range rest[1:] {
+				r = Add(r, x)
+			}
+			hyp := And(e.eq, ULe(e.x, bound), ULe(e.y, bound), ULe(r, bound))
+			out = append(out, Implies(hyp, Eq(a, App("spec|oc16", BVSort(64), Add(e.y, r)))))
+		}
+	}
+	return out
 }
 
 type solveResult struct {
